@@ -70,7 +70,7 @@ func (db *DB) handleSubscription(ctx context.Context, r *request.Request) (<-cha
 			s := subRequest.ToSelect(evt.DocID, evt.Cid.String())
 
 			result, err := p.RunSelection(ctx, s)
-			if err == nil && len(result) == 0 {
+			if err == nil && isEmptyDataset(result) {
 				txn.Discard(ctx)
 				continue // Don't send anything back to the client if the request yields an empty dataset.
 			}
@@ -91,4 +91,18 @@ func (db *DB) handleSubscription(ctx context.Context, r *request.Request) (<-cha
 	}()
 
 	return resCh, nil
+}
+
+// isEmptyDataset returns true if none of the selections in the given result holds a document.
+//
+// The result of a selection is keyed by the selection's name, so the result map of a request
+// that matched nothing is not empty itself: it holds an empty list.
+func isEmptyDataset(result map[string]any) bool {
+	for _, value := range result {
+		docs, ok := value.([]map[string]any)
+		if !ok || len(docs) > 0 {
+			return false
+		}
+	}
+	return true
 }
